@@ -592,3 +592,37 @@ func init() {
 	}
 	_ = sf(nil)
 }
+
+func init() {
+	// reflect.StructOf: struct types built at run time become go/types structs
+	stubs["reflect.StructOf"] = func(e *Engine, st *State, fr *Frame, fn *ssa.Function, args []Value, pos token.Pos) []exit {
+		fields := e.sliceElems(st, args[0].(SliceV))
+		var vars []*types.Var
+		var tags []string
+		for _, f := range fields {
+			sf := f.(StructV)
+			name := concreteString(sf.F[0], "StructField.Name")
+			ti, ok := sf.F[2].(IfaceV)
+			if !ok || ti.T == nil {
+				return e.reflectPanic(st, "StructOf: field has no type", pos)
+			}
+			ft := ti.V.(RType).T
+			tag := concreteString(sf.F[3], "StructField.Tag")
+			anon, _ := isConstTerm(sf.F[6])
+			if name == "" || !token.IsExported(name) {
+				return e.reflectPanic(st, "StructOf: field \""+name+"\" is unexported but missing PkgPath", pos)
+			}
+			vars = append(vars, types.NewField(token.NoPos, nil, name, ft, anon != nil && anon.C == 1))
+			tags = append(tags, tag)
+		}
+		return retExit(st, e.rtypeIface(types.NewStruct(vars, tags)))
+	}
+	stubs["reflect.PointerTo"] = func(e *Engine, st *State, fr *Frame, fn *ssa.Function, args []Value, pos token.Pos) []exit {
+		return retExit(st, e.rtypeIface(types.NewPointer(args[0].(IfaceV).V.(RType).T)))
+	}
+	stubs["reflect.PtrTo"] = stubs["reflect.PointerTo"]
+	stubs["reflect.Zero"] = func(e *Engine, st *State, fr *Frame, fn *ssa.Function, args []Value, pos token.Pos) []exit {
+		t := args[0].(IfaceV).V.(RType).T
+		return retExit(st, RVal{T: t, V: e.zero(t), Valid: true})
+	}
+}
